@@ -1,6 +1,6 @@
 (* C10 — message payloads: attribute objects <-> protobuf.  Statements only; proofs are in
    C10/C10Proofs.v (generic over converter tables) and C10/C10Inst.v (generated table). *)
-From YV Require Import Common.Tac C10.C10Model C10.C10Proofs Gen.C10Table Gen.C10Probes C10.C10Inst.
+From YV Require Import Common.Tac C10.C10Model C10.C10Proofs C10.C10Payload C10.C10PayloadProofs Gen.C10Table Gen.C10Probes C10.C10Inst.
 
 (* Every attribute object in the COMPUTED domain serialises without raising, parses back without
    raising, and every field the sender set comes back with the same value (an unset field comes
@@ -12,17 +12,12 @@ Theorem C10_set_fields_preserved : forall T n cn a,
 Proof. exact set_fields_preserved_thm. Qed.
 Print Assumptions C10_set_fields_preserved.
 
-(* FULL statement intended (not proved):
-     forall p, wf_payload schema mt p ->
-       exists a p', from_proto p = Ok a /\ to_proto a = Ok p' /\
-                    forall modelled field path phi, pread p' phi = pread p phi.
-   PROVED (partial): for every received payload whose parsed object lies in the computed domain,
-   re-serialising does not raise and the re-serialised payload parses to an object in which every
-   field of the library's model has the same value.  Missing: (1) that every well-formed payload
-   parses into the computed domain (checked per generated payload by the harness with the extracted
-   in_domain, and for the pinned payloads by C10_payload_probes below), (2) equality stated on
-   proto fields instead of through the library's own view (checked on the implementation by the
-   harness oracle `reserialise_value_preserving`). *)
+(* The earlier, partial form of the re-serialisation statement (kept; the full statement is
+   C10_reserialise_value_preserving below): for every received payload whose parsed object lies in
+   the computed domain, re-serialising does not raise and the re-serialised payload parses to an
+   object in which every field of the library's model has the same value.  It states equality
+   through the library's own view ([covers]) and assumes the parsed object is in the domain; both
+   gaps are closed by C10_wf_payload_in_domain and C10_reserialise_value_preserving. *)
 Theorem C10_reserialise_value_preserving_partial : forall T n cn p a,
   from_proto_f n T cn p = Ok a -> in_domain_f n T cn a = true ->
   exists p' a', to_proto_f n T cn a = Ok p' /\ from_proto_f n T cn p' = Ok a' /\ covers a a'.
@@ -40,3 +35,148 @@ Print Assumptions C10_domain_probes.
 Theorem C10_payload_probes : forallb payload_ok payloads = true.
 Proof. exact payloads_in_domain_thm. Qed.
 Print Assumptions C10_payload_probes.
+
+(* ====================== received payloads: the full statements ====================== *)
+(* [wf_payload n T cn p]: p is a payload a peer can legitimately send for converter cn's message
+   type (declared fields, typed scalar values, non-empty repeated fields, nested sub-messages of
+   the declared type, nesting depth within the fuel n).  [pread_at p phi]: presence-aware reader
+   (absent reads None, not the default).  [modelled_path T cn phi]: the paths the table reads or
+   writes, recursively.  [table_ok T]: computed shape check on the table.
+   [gap_payload] / [lossy_payload]: computed per payload (coq/C10/C10Payload.v).              *)
+
+(* the table generated from the CURRENT source passes the check *)
+Theorem C10_payload_table_ok : table_ok table = true.
+Proof. exact table_ok_thm. Qed.
+Print Assumptions C10_payload_table_ok.
+
+(* (1) every well-formed received payload parses into the computed domain — except the gap class
+   (an absent scalar that one attribute reads with HasField and another without: only
+   DocumentMessage.file_length in the current source), which C10_payload_domain_gap_refuted shows
+   is really outside. *)
+Theorem C10_wf_payload_in_domain : forall T, table_ok T = true -> forall n cn p,
+  wf_payload n T cn p = true -> gap_payload n T cn p = false ->
+  exists a, from_proto_f n T cn p = Ok a /\ in_domain_f n T cn a = true.
+Proof. exact wf_payload_in_domain_thm. Qed.
+Print Assumptions C10_wf_payload_in_domain.
+
+(* (2) FULL statement.  For every converter table passing the check, every converter, every depth:
+   a well-formed received payload outside the lossy class parses, the parsed object re-serialises,
+   and EVERY modelled field path reads the same in the re-serialised payload as in the received
+   one, presence included.  The lossy class (an absent field that the from-side reads without a
+   presence test is written back present with its default) is exact (C10_lossy_exact) and is
+   inhabited for the current source (the two _refuted witnesses below, replayed on the
+   implementation by the harness). *)
+Theorem C10_reserialise_value_preserving : forall T, table_ok T = true -> forall n cn p,
+  wf_payload n T cn p = true -> lossy_payload n T cn p = false ->
+  exists a p', from_proto_f n T cn p = Ok a /\ to_proto_f n T cn a = Ok p' /\
+    forall phi, modelled_path T cn phi = true -> pread_at p' phi = pread_at p phi.
+Proof. exact reserialise_full_thm. Qed.
+Print Assumptions C10_reserialise_value_preserving.
+
+(* ... instantiated for the table generated from the current source *)
+Theorem C10_reserialise_value_preserving_generated : forall n cn p,
+  wf_payload n table cn p = true -> lossy_payload n table cn p = false ->
+  exists a p', from_proto_f n table cn p = Ok a /\ to_proto_f n table cn a = Ok p' /\
+    forall phi, modelled_path table cn phi = true -> pread_at p' phi = pread_at p phi.
+Proof. exact reserialise_full_table_thm. Qed.
+Print Assumptions C10_reserialise_value_preserving_generated.
+
+(* (3) without any hypothesis on presence (only outside the gap class): re-serialisation never
+   drops or alters a modelled field; a path either reads the same or was absent and now reads its
+   proto default (sub-message: present). *)
+Theorem C10_reserialise_materialises_only : forall T, table_ok T = true -> forall n cn p,
+  wf_payload n T cn p = true -> gap_payload n T cn p = false ->
+  exists a p', from_proto_f n T cn p = Ok a /\ to_proto_f n T cn a = Ok p' /\
+    forall phi, modelled_path T cn phi = true ->
+      pread_at p' phi = pread_at p phi
+      \/ (pread_at p phi = None /\ pread_at p' phi = path_default T (msg_of T cn) phi
+          /\ path_default T (msg_of T cn) phi <> None).
+Proof. exact reserialise_materialises_only_thm. Qed.
+Print Assumptions C10_reserialise_materialises_only.
+
+(* (4) the lossy class is exact: such a payload does come back with an absent modelled path present *)
+Theorem C10_lossy_exact : forall T, table_ok T = true -> forall n cn p,
+  wf_payload n T cn p = true -> gap_payload n T cn p = false -> lossy_payload n T cn p = true ->
+  exists a p' phi, from_proto_f n T cn p = Ok a /\ to_proto_f n T cn a = Ok p' /\
+    modelled_path T cn phi = true /\ pread_at p phi = None /\ pread_at p' phi <> None.
+Proof. exact lossy_exact_thm. Qed.
+Print Assumptions C10_lossy_exact.
+
+(* ---------- the lossy classes of the CURRENT source, concrete witnesses ---------- *)
+Theorem C10_reserialise_absent_scalar_refuted :
+  exists p p', wf_payload 8 table "message"%name p = true
+    /\ lossy_payload 8 table "message"%name p = true
+    /\ reserialise_f 8 table "message"%name p = Ok p'
+    /\ modelled_path table "message"%name ["video_message"%name; "caption"%name] = true
+    /\ pread_at p ["video_message"%name; "caption"%name] = None
+    /\ pread_at p' ["video_message"%name; "caption"%name] = Some (VStr []).
+Proof. exact reserialise_absent_scalar_refuted. Qed.
+Print Assumptions C10_reserialise_absent_scalar_refuted.
+
+Theorem C10_reserialise_absent_submessage_refuted :
+  exists p p', wf_payload 8 table "message"%name p = true
+    /\ lossy_payload 8 table "message"%name p = true
+    /\ reserialise_f 8 table "message"%name p = Ok p'
+    /\ modelled_path table "message"%name ["protocol_message"%name; "key"%name] = true
+    /\ pread_at p ["protocol_message"%name; "key"%name] = None
+    /\ pread_at p' ["protocol_message"%name; "key"%name] = Some (VRec "MessageKey"%name [])
+    /\ pread_at p' ["protocol_message"%name; "key"%name; "id"%name] = Some (VStr []).
+Proof. exact reserialise_absent_submessage_refuted. Qed.
+Print Assumptions C10_reserialise_absent_submessage_refuted.
+
+Theorem C10_payload_domain_gap_refuted :
+  exists p a p', wf_payload 8 table "message"%name p = true
+    /\ gap_payload 8 table "message"%name p = true
+    /\ from_proto_f 8 table "message"%name p = Ok a
+    /\ in_domain_f 8 table "message"%name a = false
+    /\ to_proto_f 8 table "message"%name a = Ok p'
+    /\ pread_at p ["document_message"%name; "file_length"%name] = None
+    /\ pread_at p' ["document_message"%name; "file_length"%name] = Some (VInt 0).
+Proof. exact payload_domain_gap_refuted. Qed.
+Print Assumptions C10_payload_domain_gap_refuted.
+
+(* ---------- non-vacuity ---------- *)
+(* a concrete received payload with quoted messages nested two deep, mentions, a present empty
+   string and a present 0.0 meets the hypotheses of the full statement *)
+Theorem C10_nested_payload_meets_hypotheses :
+  wf_payload 8 table "message"%name ex_nested = true
+  /\ lossy_payload 8 table "message"%name ex_nested = false
+  /\ modelled_path table "message"%name deep_path = true
+  /\ pread_at ex_nested deep_path = Some (VStr [100%N; 101%N; 101%N; 112%N])
+  /\ modelled_path table "message"%name ["location_message"%name; "name"%name] = true
+  /\ pread_at ex_nested ["location_message"%name; "name"%name] = Some (VStr [])
+  /\ pread_at ex_nested ["location_message"%name; "address"%name] = None.
+Proof. exact nested_payload_meets_hypotheses. Qed.
+Print Assumptions C10_nested_payload_meets_hypotheses.
+
+(* no depth bound: quote chains of EVERY depth d meet the hypotheses, hence re-serialise with every
+   modelled path unchanged *)
+Theorem C10_quote_chain_reserialises : forall d,
+  exists a p', from_proto_f (fuel3 d) table "message"%name (quote_chain d) = Ok a
+    /\ to_proto_f (fuel3 d) table "message"%name a = Ok p'
+    /\ forall phi, modelled_path table "message"%name phi = true ->
+         pread_at p' phi = pread_at (quote_chain d) phi.
+Proof. exact quote_chain_reserialises_thm. Qed.
+Print Assumptions C10_quote_chain_reserialises.
+
+(* the same three classes on a PINNED excerpt of the converter as it is today (C10Inst.v:
+   unrepaired_payload_table, inside table_ok): stays valid when the source is repaired, so the
+   regression is recognised if it returns *)
+Theorem C10_unrepaired_payload_classes :
+  table_ok unrepaired_payload_table = true
+  /\ (exists p', wf_payload 8 unrepaired_payload_table "message"%name wit_absent_scalar = true
+        /\ lossy_payload 8 unrepaired_payload_table "message"%name wit_absent_scalar = true
+        /\ reserialise_f 8 unrepaired_payload_table "message"%name wit_absent_scalar = Ok p'
+        /\ pread_at wit_absent_scalar ["video_message"%name; "caption"%name] = None
+        /\ pread_at p' ["video_message"%name; "caption"%name] = Some (VStr []))
+  /\ (exists p', wf_payload 8 unrepaired_payload_table "message"%name wit_absent_submessage = true
+        /\ lossy_payload 8 unrepaired_payload_table "message"%name wit_absent_submessage = true
+        /\ reserialise_f 8 unrepaired_payload_table "message"%name wit_absent_submessage = Ok p'
+        /\ pread_at wit_absent_submessage ["protocol_message"%name; "key"%name] = None
+        /\ pread_at p' ["protocol_message"%name; "key"%name; "id"%name] = Some (VStr []))
+  /\ (exists a, wf_payload 8 unrepaired_payload_table "message"%name wit_gap = true
+        /\ gap_payload 8 unrepaired_payload_table "message"%name wit_gap = true
+        /\ from_proto_f 8 unrepaired_payload_table "message"%name wit_gap = Ok a
+        /\ in_domain_f 8 unrepaired_payload_table "message"%name a = false).
+Proof. exact unrepaired_payload_classes. Qed.
+Print Assumptions C10_unrepaired_payload_classes.
